@@ -12,6 +12,7 @@ import DEvo.Run.Tx
 import DEvo.Run.History
 import DEvo.Run.Migrations
 import DEvo.Run.Load
+import DEvo.Run.Batches
 
 /-! Line protocol driver: one JSON object per input line, one JSON object per output line.
 Only model modules (no Mathlib/Batteries) are imported, so this links as a `lean_exe`. -/
@@ -213,6 +214,21 @@ def handle (j : Json) : Except String Json := do
     pure (Json.mkObj [("loaded", Json.arr (out.map (fun (l : Load.Loaded) => match l with
       | .sql label c => Json.arr #[Json.str "sql", Json.str label, Json.str c]
       | .py t => Json.arr #[Json.str "py", Json.str t])).toArray)])
+  | "batches" =>
+    -- SQLExecutor._prepare_sql + _prepare_transaction_batches: the batches and their transaction flags
+    let groupsJ ← (← j.getObjVal? "groups").getArr?
+    let gs : List Run.Group ← groupsJ.toList.mapM (fun g => do
+      let kind ← g.getObjValAs? String "kind"
+      let ss ← Codec.strList (← g.getObjVal? "sql")
+      match kind with
+      | "plain" => pure (Run.Group.plain ss)
+      | "no_tx" => pure (Run.Group.noTx ss)
+      | "new_tx" => pure (Run.Group.newTx ss)
+      | _ => throw "bad group kind")
+    let out := Run.cut DEvo.Generated.batchYieldsOwnFlag (Run.prepare gs)
+    pure (Json.mkObj [("batches", Json.arr (out.map (fun (bf : List Run.Prep × Option Bool) =>
+      Json.mkObj [("sql", Json.arr (bf.1.map (fun q => Json.str q.stmt)).toArray),
+                  ("tx", match bf.2 with | none => Json.null | some b => Json.bool b)])).toArray)])
   | "load_attrs" =>
     -- FieldSignature.deserialize: which stored attributes come back (values are JSON texts, none = null)
     let known ← Codec.strList (← j.getObjVal? "known")
